@@ -103,7 +103,6 @@ func UnpackString(format, pack string, j int, budget uint64) (vals []rt.Value, n
 				u.add(rt.StringValue(u.strVal))
 		case 'z':
 			if !u.align(0) {
-				u.err = errExpectedOption
 				break
 			}
 			var zi = u.j
@@ -130,17 +129,12 @@ func UnpackString(format, pack string, j int, budget uint64) (vals []rt.Value, n
 				u.readStr(int(u.intVal)) &&
 				u.add(rt.StringValue(u.strVal))
 		case 'x':
-			_ = u.skip(1)
+			_ = u.align(0) &&
+				u.skip(1)
 		case 'X':
-			if u.alignOnly {
-				u.err = errExpectedOption
-			} else {
-				u.alignOnly = true
-			}
+			u.alignNext()
 		case ' ':
-			if u.alignOnly {
-				u.err = errExpectedOption
-			}
+			// ignored
 		default:
 			u.err = errBadFormatString(c)
 		}
